@@ -6,7 +6,8 @@
 // machine and records, per call: the events observed (in order), the return value and what every machine reports
 // (isRunning, isTerminated, currentState, lastState, nextState).  The trace is validated by TLC against
 // spec/Hfsm/Trace_Hfsm.tla; this program decides nothing.
-//   {"e":"Prog","p":{...}}   {"e":"Call","c":[op,ev],"ret":0|1,"out":[[...],...],"q":[[r,t,cur,last,next],...]}   {"e":"Reset"}
+//   {"e":"Prog","p":{...}}   {"e":"Begin","c":[op,ev]}
+//   {"e":"Call","c":[op,ev],"ret":0|1,"out":[[...],...],"q":[[r,t,cur,last,next],...]}   {"e":"Reset"}
 // Event tuples: ["G",m,g,ev,res] ["H",m,h,ev,res] ["X",m,s,ev,next] ["A",m,a,ev,cur,next] ["E",m,s,ev,cur]
 //               ["C",m,from,ev,to,cur] ["R",m,op,ev,ret,same]
 #include <vh.h>
@@ -141,6 +142,9 @@ void run_one(const json &line) {
         for (auto &c : line["calls"]) {
             int op = c[0], e = c[1];
             X.out.clear(); X.first = true;
+            // announced before it is made, so that a call that crashes is part of the replay file
+            T.line("{\"e\":\"Begin\",\"c\":[" + std::to_string(op) + "," + std::to_string(e) + "]}");
+            T.flush();
             int ret = X.call(1, op, e);
             std::string q = "[";
             for (int m = 1; m <= nm; ++m) { if (m > 1) q += ','; q += X.query(m); }
